@@ -101,7 +101,7 @@ class Ctx:
     # -------------------------------------------------------------------- TLC
     def tlc(self, module, cfg, name=None, workers=None, simulate=None, depth=None,
             env=None, timeout=600, deque=False, extra=None, coverage=False,
-            consts=None, count=True, allow_violation=False, heap=None):
+            consts=None, count=True, allow_violation=False, heap=None, defs=None):
         """Run TLC on specs/<module>.tla with specs/<cfg> in a private copy.
 
         consts: dict of CONSTANT overrides appended to the cfg (name -> TLA text).
@@ -115,6 +115,15 @@ class Ctx:
         cfgtxt = open(os.path.join(SPECS, cfg)).read()
         if consts:
             cfgtxt += "\nCONSTANTS\n" + "\n".join("  %s = %s" % kv for kv in consts.items()) + "\n"
+        if defs:
+            # constants that need TLA+ expressions (functions, sequences): wrapper module + substitution
+            wrap = "VfRun_" + module
+            body = "---- MODULE %s ----\nEXTENDS %s\n" % (wrap, module)
+            body += "".join("vf_%s == %s\n" % kv for kv in defs.items()) + "====\n"
+            with open(os.path.join(d, wrap + ".tla"), "w") as f:
+                f.write(body)
+            cfgtxt += "\nCONSTANTS\n" + "\n".join("  %s <- vf_%s" % (k, k) for k in defs) + "\n"
+            module = wrap
         with open(os.path.join(d, "run.cfg"), "w") as f:
             f.write(cfgtxt)
         workers = workers or min(NCPU, 8)
@@ -276,8 +285,88 @@ class Ctx:
             raise Infra("driver %s not found in %s" % (run, relpkg))
         return p.returncode, p.stdout
 
+    def instrument(self, relfiles, funcs=None):
+        """instrumented copies (tools/instrument) of repo files for the cooperative scheduler.
+        Returns (replace-map for overlay(), skeleton dict).  The verifsched runtime package is
+        added to the module through the same overlay."""
+        tool = os.path.join(self.sub("bin"), "instrument")
+        if not os.path.exists(tool):
+            p = subprocess.run(["go", "build", "-o", tool, "."], cwd=os.path.join(ROOT, "tools", "instrument"),
+                               env=dict(self.go_env(), GOFLAGS="-mod=mod", GOWORK="off"),
+                               stdout=subprocess.PIPE, stderr=subprocess.STDOUT, text=True, timeout=300)
+            if p.returncode != 0:
+                raise Infra("cannot build instrumenter: " + p.stdout[-2000:])
+        out = self.sub("inst")
+        rep = {}
+        skel = {}
+        # one output dir per source dir (base names may repeat)
+        for i, rel in enumerate(relfiles):
+            od = os.path.join(out, str(i))
+            os.makedirs(od, exist_ok=True)
+            sk = os.path.join(od, "skel.json")
+            cmd = [tool, "-out", od, "-skeleton", sk]
+            if funcs and funcs.get(rel):
+                cmd += ["-funcs", ",".join(funcs[rel])]
+            cmd.append(os.path.join(REPO, rel))
+            p = subprocess.run(cmd, stdout=subprocess.PIPE, stderr=subprocess.STDOUT, text=True, timeout=120)
+            if p.returncode != 0:
+                raise Infra("instrumenter failed on %s: %s" % (rel, p.stdout[-2000:]))
+            rep[rel] = os.path.join(od, os.path.basename(rel))
+            skel.update(json.load(open(sk)))
+        rep["internal/verifsched/sched.go"] = os.path.join(HARNESS, "internal", "verifsched", "sched.go")
+        return rep, skel
+
+    def go_test_compile(self, relpkg, overlay, name="drv", timeout=1500):
+        """compile the test binary of relpkg (with injected drivers) once"""
+        out = os.path.join(self.sub("bin"), name + ".test")
+        cmd = ["go", "test", "-tags", "verif", "-vet=off", "-overlay", overlay, "-c", "-o", out,
+               "./" + relpkg if relpkg != "." else "."]
+        t0 = time.time()
+        try:
+            p = subprocess.run(cmd, cwd=REPO, env=self.go_env(), stdout=subprocess.PIPE, stderr=subprocess.STDOUT,
+                               text=True, errors="replace", timeout=timeout)
+        except subprocess.TimeoutExpired:
+            raise Infra("go test -c timeout: " + relpkg)
+        log("go test -c %s: rc=%s in %.1fs" % (relpkg, p.returncode, time.time() - t0))
+        if p.returncode != 0 or not os.path.exists(out):
+            raise Infra("driver does not build against the current tree:\n" + "\n".join(p.stdout.splitlines()[:40]))
+        return out
+
+    def run_sharded(self, binary, run, relpkg, scripts, name, shards=None, env=None, timeout=900):
+        """run a compiled driver over the scripts, sharded over processes (one controller per process);
+        returns all recorded events (blocks stay contiguous)"""
+        shards = max(1, min(shards or NCPU, len(scripts)))
+        d = self.sub("drv_" + name)
+        procs = []
+        for i in range(shards):
+            part = scripts[i::shards]
+            sp, tp = os.path.join(d, "scripts%d.ndjson" % i), os.path.join(d, "trace%d.ndjson" % i)
+            write_ndjson(sp, part)
+            e = self.go_env(dict(env or {}, VERIF_SCRIPTS=sp, VERIF_TRACE_OUT=tp))
+            lf = open(os.path.join(d, "out%d.txt" % i), "w")
+            cwd = os.path.normpath(os.path.join(REPO, relpkg))
+            procs.append((subprocess.Popen([binary, "-test.run", run, "-test.count=1", "-test.timeout", "%ds" % timeout, "-test.v"],
+                                           cwd=cwd, env=e, stdout=lf, stderr=subprocess.STDOUT), lf, tp, i))
+        events = []
+        t0 = time.time()
+        for p, lf, tp, i in procs:
+            try:
+                rc = p.wait(timeout=timeout + 60)
+            except subprocess.TimeoutExpired:
+                p.kill()
+                raise Infra("driver shard %d timed out" % i)
+            lf.close()
+            out = open(lf.name).read()
+            if "VERIF-INFRA" in out:
+                raise Infra("driver infrastructure error:\n" + "\n".join([l for l in out.splitlines() if "VERIF-INFRA" in l][:5]))
+            if "VERIF-DONE" not in out:
+                raise Infra("driver shard %d failed without finishing (rc=%s):\n%s" % (i, rc, "\n".join(out.splitlines()[-30:])))
+            events.extend(read_ndjson(tp))
+        log("driver %s: %d scripts on %d shards in %.1fs" % (name, len(scripts), shards, time.time() - t0))
+        return events
+
     # ------------------------------------------------------ trace validation
-    def validate_trace(self, module, cfg, trace_file, name=None, timeout=600, consts=None, strict=False):
+    def validate_trace(self, module, cfg, trace_file, name=None, timeout=600, consts=None, strict=False, defs=None):
         """Run Trace<module> over an ndjson trace.  Returns (accepted, info).
         info = dict(high=<lines consumed>, line=<first rejected record or None>)."""
         n = sum(1 for _ in open(trace_file))
@@ -285,7 +374,7 @@ class Ctx:
             raise Infra("empty trace " + trace_file)
         r = self.tlc(module, cfg, name=name or ("trace_" + module), workers=1,
                      env={"VERIF_TRACE": trace_file, "VERIF_STRICT": "1" if strict else "0"},
-                     timeout=timeout, consts=consts, allow_violation=True, count=False)
+                     timeout=timeout, consts=consts, allow_violation=True, count=False, defs=defs)
         rej = r.printed.get("REJECTED")
         if r.violated is None and r.error is None and r.rc == 0 and not rej:
             return True, {"lines": n, "high": n, "states": r.distinct}
@@ -444,7 +533,8 @@ def _flatten(blocks):
     return flat, index
 
 
-def validate_blocks(ctx, mon, events, name, consts=None, conf=None, max_rejects=3, timeout=900):
+def validate_blocks(ctx, mon, events, name, consts=None, conf=None, max_rejects=3, timeout=900, defs=None,
+                    conf_consts=None, conf_map=None):
     """Validate a concatenated trace (blocks start with a reset record).
 
     mon  = (module, cfg): the property monitor; a rejection is a property violation candidate.
@@ -454,7 +544,8 @@ def validate_blocks(ctx, mon, events, name, consts=None, conf=None, max_rejects=
     blocks = split_traces(events)
     rejects = []
     d = ctx.sub("val_" + name)
-    cur = list(blocks)
+    cur = list(blocks)      # blocks still to be validated
+    good = []               # blocks the monitor accepted
     rounds = 0
     while cur:
         rounds += 1
@@ -463,6 +554,7 @@ def validate_blocks(ctx, mon, events, name, consts=None, conf=None, max_rejects=
         write_ndjson(tp, flat)
         ok, info = ctx.validate_trace(mon[0], mon[1], tp, name="%s_mon%d" % (name, rounds), consts=consts, timeout=timeout)
         if ok:
+            good.extend(cur)
             break
         if "high" not in info:
             raise Infra("monitor broke on observed trace: %s" % info)
@@ -470,19 +562,23 @@ def validate_blocks(ctx, mon, events, name, consts=None, conf=None, max_rejects=
         bi = max(i for i, (start, _) in enumerate(index) if start <= pos)
         bid, evs = cur[bi]
         rejects.append({"id": bid, "info": info, "events": evs, "at": pos - index[bi][0] - 1})
-        cur = cur[:bi] + cur[bi + 1:]
+        good.extend(cur[:bi])       # everything before the rejected block was accepted
+        cur = cur[bi + 1:]
         if len(rejects) >= max_rejects:
-            cur = []   # enough evidence; the remainder is not claimed as validated
-            break
+            break                   # enough evidence; the remainder is not claimed as validated
+    cur = good
     accepted = len(cur)
     ctx.traces_validated += accepted
     if conf and cur:
         left, nd = list(cur), 0
         while left and nd < 3:
             flat, index = _flatten(left)
+            if conf_map:
+                flat = [conf_map(e) for e in flat]
             tp = os.path.join(d, "strict%d.ndjson" % nd)
             write_ndjson(tp, flat)
-            ok, info = ctx.validate_trace(conf[0], conf[1], tp, name="%s_conf%d" % (name, nd), consts=consts, strict=True, timeout=timeout)
+            ok, info = ctx.validate_trace(conf[0], conf[1], tp, name="%s_conf%d" % (name, nd), consts=conf_consts or consts,
+                                          strict=True, timeout=timeout, defs=defs)
             if ok:
                 break
             nd += 1
